@@ -383,7 +383,11 @@ func (in *Interp) builtin(st *State, name string, call *ast.CallExpr) Val {
 		if len(call.Args) > 1 {
 			n = in.evalInt(st, call.Args[1])
 		}
-		in.Allocs = append(in.Allocs, &AllocSite{Size: n, Pos: call.Pos(), Text: in.render(st, call), Guard: in.guard(), Fn: in.fi.Key, Facts: append([]Fact(nil), st.facts...)})
+		size := n
+		if len(call.Args) > 2 {
+			size = in.evalInt(st, call.Args[2]) // the capacity is what is allocated
+		}
+		in.Allocs = append(in.Allocs, &AllocSite{Size: size, Pos: call.Pos(), Text: in.render(st, call), Guard: in.guard(), Fn: in.fi.Key, Facts: append([]Fact(nil), st.facts...)})
 		if isByteSlice(t) {
 			return in.newBuf(st, &BufObj{Origin: "make", Len: n, Pos: call.Pos()})
 		}
@@ -693,9 +697,25 @@ func (in *Interp) lenCall(st *State, f *types.Func, recv Val, call *ast.CallExpr
 		path, rt = r.Path, r.Type
 	case BufV:
 		return in.viewLen(st, r)
+	case AltV:
+		// one of several concrete kinds: the size is that of one of them
+		if ks := r.kinds(in.w); ks != nil {
+			return FromAtom(&Atom{Kind: "Len", Path: r.valString(), Typ: "oneof:" + strings.Join(ks, "|")})
+		}
 	}
 	sig := f.Type().(*types.Signature)
 	recvT := sig.Recv().Type()
+	// an interface-typed receiver the interpreter could not resolve: remember the
+	// static type of the expression (a narrower interface than the method's own)
+	if path == "?" {
+		if se, ok := unparen(call.Fun).(*ast.SelectorExpr); ok {
+			if t := in.info.TypeOf(se.X); t != nil {
+				if _, isIface := t.Underlying().(*types.Interface); isIface {
+					return LenCall(path, shortType(t))
+				}
+			}
+		}
+	}
 	if _, isIface := recvT.Underlying().(*types.Interface); isIface {
 		// interface call: may resolve if the object was stored with a concrete type
 		if rt != nil {
@@ -845,6 +865,11 @@ func (in *Interp) isZeroPath(st *State, path string) bool {
 	}
 	if !isLocalObj(root) || strings.Contains(path, "[*]") {
 		return false
+	}
+	for _, d := range st.decoded {
+		if path == d || strings.HasPrefix(path, d+".") {
+			return false // filled by a child decoder
+		}
 	}
 	// a path below a stored pointer to a non-local object is not zero
 	parts := strings.Split(path, ".")
